@@ -227,6 +227,12 @@ func Anchor(t *rapid.T, h *History, o AnchorOpts) []*hist.Anchored {
 			nums[i] = uint64(n - perm[i])
 		}
 	}
+	if rapid.IntRange(0, 4).Draw(t, "hugeNumbers") == 0 {
+		// transaction numbers are uint64: a global counter above 2^32, with high parts that differ between operations
+		for i := range nums {
+			nums[i] += uint64(rapid.IntRange(0, 3).Draw(t, "numberHigh")) << 32
+		}
+	}
 	unpub := make([]bool, n)
 	if o.Unpublished {
 		k := rapid.IntRange(0, 2).Draw(t, "numUnpublished")
